@@ -48,12 +48,42 @@ def splitWs (s : String) : List String :=
 def isDigit (c : Char) : Bool := '0' ≤ c && c ≤ '9'
 def allDigits (s : String) : Bool := !s.isEmpty && s.toList.all isDigit
 
-/-- `int(str)` for the spellings the generator uses: optional sign, decimal digits -/
+/-- the white space `int()` skips around an ASCII literal: blank, `\t\n\v\f\r` (C `isspace`; the
+separators `\x1c`-`\x1f`, which `str.strip()` removes, are NOT skipped in an ASCII string) -/
+def isPyWs (c : Char) : Bool := isWs c
+
+def digitVal (c : Char) : Nat := c.toNat - '0'.toNat
+
+/-- after the first digit of a base-10 `int()` literal: digits, and single underscores each followed by
+a digit -/
+def intBodyRest : List Char → Bool
+  | [] => true
+  | '_' :: d :: r => isDigit d && intBodyRest r
+  | '_' :: [] => false
+  | c :: r => isDigit c && intBodyRest r
+
+/-- the digit part of `int(str)`: starts with a digit, ends with a digit, underscores only singly between
+digits (`1_000`; not `_1`, `1_`, `1__0`) -/
+def intBodyOk : List Char → Bool
+  | [] => false
+  | c :: r => isDigit c && intBodyRest (c :: r)
+
+def digitsValue (ds : List Char) : Nat := ds.foldl (fun n c => 10 * n + digitVal c) 0
+
+/-- `int(str)` in base 10 as CPython parses it, restricted to ASCII: surrounding white space is
+stripped, then an optional single sign `+` / `-` immediately followed by the digit part (no blank
+after the sign, leading zeros allowed, single underscores between digits).  Non-ASCII decimal digits
+and white space, which CPython also accepts, are outside the model (`none`). -/
 def pyInt? (s : String) : Option Int :=
-  match s.toList with
-  | '-' :: ds => if !ds.isEmpty && ds.all isDigit then (String.ofList ds).toNat?.map (fun n => -(n : Int)) else none
-  | '+' :: ds => if !ds.isEmpty && ds.all isDigit then (String.ofList ds).toNat?.map (fun n => (n : Int)) else none
-  | ds => if !ds.isEmpty && ds.all isDigit then (String.ofList ds).toNat?.map (fun n => (n : Int)) else none
+  let cs := stripChars isPyWs s.toList
+  let (neg, body) := match cs with
+    | '-' :: r => (true, r)
+    | '+' :: r => (false, r)
+    | r => (false, r)
+  if intBodyOk body then
+    let n : Int := digitsValue (body.filter (· ≠ '_'))
+    some (if neg then -n else n)
+  else none
 
 /-- `float(str)` accepted spellings (sign, digits, one optional point, optional exponent) -/
 def pyFloatOk (s : String) : Bool :=
@@ -166,6 +196,14 @@ structure Ctx where
   allInter : List (String × Attrs) := []
   /-- ITP: `current_atom_names` -/
   snapshot : List String := []
+  /-- `block.nrexcl = int(nrexcl)` -/
+  nrexcl : Option Int := none
+  /-- `link.non_edges`: (key of the first atom, attributes of the second atom) per `[ non-edges ]` line -/
+  nonEdges : List (String × Attrs) := []
+  /-- `link.patterns`: per `[ patterns ]` line its atoms (reference as written, attributes) -/
+  patterns : List (List (String × Attrs)) := []
+  /-- `link.features` (a set; kept without duplicates) -/
+  features : List String := []
   deriving Repr, Inhabited
 
 def Ctx.hasNode (c : Ctx) (k : String) : Bool := c.nodes.any (fun n => n.1 = k)
@@ -320,6 +358,12 @@ def linkAtomLine (defaults : Attrs) (line : String) (c : Ctx) : Option Ctx := do
     else pure (c.setNode k (attrsUpdate (attrsUpdate defaults old) attrs2))
   | _ => none
 
+/-- the entry a `[ non-edges ]` line appends to `link.non_edges`: the key of the first atom and
+`dict(ChainMap(attributes of the second atom, link._apply_to_all_nodes))` - the link-wide attributes,
+overridden by what the line itself says about the atom -/
+def nonEdgeOf (c : Ctx) (k0 : String) (secondAttrs : Attrs) : String × Attrs :=
+  (k0, attrsUpdate c.allNodes secondAttrs)
+
 /-- `_parse_edges` -/
 def edgeLine (kind : Kind) (negate : Bool) (line : String) (c : Ctx) : Option Ctx := do
   let toks ← tokenizeS line
@@ -328,7 +372,13 @@ def edgeLine (kind : Kind) (negate : Bool) (line : String) (c : Ctx) : Option Ct
   let keys ← atoms.mapM fun (r, a) => (treatAtomPrefix r.toList a).map fun x => String.ofList x.1
   match keys with
   | [k0, k1] =>
-    if negate then pure c
+    if negate then
+      -- `non_edges.append([key of the first atom, dict(ChainMap(attributes of the second, _apply_to_all_nodes))])`
+      match atoms with
+      | [_, (r1, a1)] =>
+        (treatAtomPrefix r1.toList a1).map fun x =>
+          { c with nonEdges := c.nonEdges ++ [nonEdgeOf c k0 x.2] }
+      | _ => none
     else if (kind = .modification || kind = .block) && !(c.hasNode k0 && c.hasNode k1) then none
     else
       let c1 := if c.hasNode k0 then c else c.setNode k0 []
@@ -342,13 +392,15 @@ def blockAtomLine (line : String) (c : Ctx) : Option Ctx := do
     | some l => if startsWithBrace l then (parseAttrs l).map fun a => (toks.dropLast, a) else some (toks, ([] : Attrs))
     | none => none
   match toks1 with
-  | _ :: _atype :: resid :: _resname :: name :: cg :: extra =>
+  | _ :: atype :: resid :: resname :: name :: cg :: extra =>
     if c.hasNode name then none
-    let _ ← pyInt? resid
-    let _ ← pyInt? cg
+    let r ← pyInt? resid
+    let g ← pyInt? cg
     if !((extra.take 2).all pyFloatOk) then none
     let key := match attrs.get "atomname" with | some (.str s) => s | _ => name
-    pure (c.setNode key (attrsUpdate [("atomname", .str name)] attrs))
+    -- `dict(ChainMap(attributes, atom))`: the attribute dictionary of the line wins
+    pure (c.setNode key (attrsUpdate [("atomname", .str name), ("atype", .str atype), ("resname", .str resname),
+      ("resid", .int r), ("charge_group", .int g)] attrs))
   | _ => none
 
 /-- `_link` / `_parse_link_attribute` for section `link` -/
@@ -362,7 +414,7 @@ def linkAttrLine (molmeta : Bool) (line : String) (c : Ctx) : Option Ctx := do
 
 def nameLine2 (line : String) (c : Ctx) : Option Ctx :=
   match splitWs line with
-  | [n, x] => (pyInt? x).map fun _ => { c with name := some n }
+  | [n, x] => (pyInt? x).map fun i => { c with name := some n, nrexcl := some i }
   | _ => none
 
 def ffHandle (natomsTab : List (String × Nat)) (tab : List Entry) (kind : Kind) (p : Path) (line : String)
@@ -384,10 +436,11 @@ def ffHandle (natomsTab : List (String × Nat)) (tab : List Entry) (kind : Kind)
     else if e.method = "_link_patterns" then
       (if kind != .link then none else do
         let toks ← tokenizeS line
-        let _ ← atomsWithAttrs none false toks
-        pure c)
+        let (atoms, _) ← atomsWithAttrs none false toks
+        pure { c with patterns := c.patterns ++ [atoms] })
     else if e.method = "_link_features" then
-      (if kind != .link then none else (tokenizeS line).map fun _ => c)
+      (if kind != .link then none else (tokenizeS line).map fun toks =>
+        { c with features := (c.features ++ toks).eraseDups })
     else some c      -- citation, log entries, block meta: never raise
 
 /-- context-free sections: `_variables` (before any context), `_macros` (done by the
@@ -424,12 +477,15 @@ def readFF (natomsTab : List (String × Nat)) (tab : List Entry) (raw : List Str
 inductive Idx where
   | pos (n : Nat)
   | slice (start : Nat) (stop : Option Nat)
+  /-- an entry of `atom_idxs` that is neither an int nor a slice: the `else: raise IOError` branch -/
+  | bad
   deriving Repr, Inhabited
 
 /-- `_split_atoms_and_parameters`: positions selected by the index list (`none` = IndexError) -/
 def idxPositions (len : Nat) : List Idx → Option (List Nat)
   | [] => some []
   | .pos n :: rest => if n < len then (idxPositions len rest).map (n :: ·) else none
+  | .bad :: _ => none
   | .slice a b :: rest =>
     let stop := min (b.getD len) len
     -- a bounded slice must be filled completely (repair of F-C13-10): IOError otherwise
@@ -516,15 +572,16 @@ def itpInteraction (idxTab : List (String × List Idx)) (sect : String) (line0 :
 def itpAtomLine (line : String) (c : Ctx) : Option Ctx := do
   let toks ← tokenizeS line
   match toks with
-  | idx :: _atype :: resid :: _resname :: name :: cg :: extra =>
+  | idx :: atype :: resid :: resname :: name :: cg :: extra =>
     let i ← pyInt? idx
     if i < 1 then none
     let key := toString (i - 1)
     if c.hasNode key then none
-    let _ ← pyInt? resid
-    let _ ← pyInt? cg
+    let r ← pyInt? resid
+    let g ← pyInt? cg
     if !((extra.take 2).all pyFloatOk) then none
-    pure (c.setNode key [("atomname", .str name)])
+    pure (c.setNode key [("atomname", .str name), ("atype", .str atype), ("resname", .str resname),
+      ("resid", .int r), ("charge_group", .int g), ("index", .int i)])
   | _ => none
 
 def itpHandle (idxTab : List (String × List Idx)) (tab : List Entry) (p : Path) (line : String) (c : Ctx) : Option Ctx :=
